@@ -635,6 +635,16 @@ impl C09 {
                             _ => (format!("export {{ {} as {}_h }} from \"{}\";", ext, ext, gspec), format!("{}_h", ext)),
                         };
                         extra_files.push((format!("{}.ts", hop_name), format!("{}\n", line)));
+                        // now and then the hop file is itself reached through an outer barrel (`export *` leading to a named,
+                        // renamed or starred re-export: two tables of the module graph have to cooperate)
+                        let hop_name = if s.chance(1, 3) {
+                            let outer = format!("outer{}", hop);
+                            extra_files.push((format!("{}.ts", outer), format!("export * from \"./{}\";\n", hop_name)));
+                            styles.push("export_star_over_reexport".into());
+                            outer
+                        } else {
+                            hop_name
+                        };
                         if imported == name {
                             imports[f].push(format!("import {{ {} }} from \"./{}\";", name, hop_name));
                         } else {
@@ -648,6 +658,14 @@ impl C09 {
                         let hop_name = format!("hop{}", hop);
                         let ns = format!("star{}", hop);
                         extra_files.push((format!("{}.ts", hop_name), format!("export * as {} from \"{}\";\n", ns, gspec)));
+                        let hop_name = if s.chance(1, 3) {
+                            let outer = format!("outer{}", hop);
+                            extra_files.push((format!("{}.ts", outer), format!("export * from \"./{}\";\n", hop_name)));
+                            styles.push("export_star_over_reexport".into());
+                            outer
+                        } else {
+                            hop_name
+                        };
                         imports[f].push(format!("import {{ {} }} from \"./{}\";", ns, hop_name));
                         replacements.push((name.clone(), format!("{}.{}", ns, ext)));
                         styles.push("export_star_as".into());
